@@ -5,7 +5,9 @@ import json, os, re
 import vlib
 
 COQ_TARGET = "props/C04.v"
-THEOREMS = ["C04_denotes", "C04_additive", "C04_literals"]
+THEOREMS = ["C04_denotes", "C04_additive", "C04_literals", "C04_token_boundary", "C04_token_blanks", "C04_token_line_break",
+            "C04_token_safe", "C04_token_prefix", "C04_bang", "C04_bang_blanks", "C04_bang_array",
+            "C04_in_program_rest", "C04_in_program_length", "C04_in_program_note", "C04_in_program_note_field", "C04_l_dot_ok"]
 RULE = ("expressions generated from the grammar [%]?[-]?digits? dots? ((^|+) part)* as syntax trees (printed by the "
         "extracted Coq printer), time bases 48..32767, defaults 0..4*tb, plus junk strings over the length alphabet; "
         "non-trivial = distinct (string,tb,default) with at least one part, dot or step marker")
@@ -87,14 +89,35 @@ def run(ctx):
     rng = ctx.rng
     n = 3000 if ctx.tier == "quick" else 120000
     # corpus first
-    corpus = []
+    corpus, corpus_src = [], []
     p = os.path.join(vlib.VERIF, "corpus", "C04.jsonl")
     if os.path.exists(p):
         for line in open(p):
             if line.strip():
                 o = json.loads(line)
-                corpus.append((o["head"], o["parts"], o["tb"], o["d"]))
+                if "src" in o:
+                    corpus_src.append(o)
+                else:
+                    corpus.append((o["head"], o["parts"], o["tb"], o["d"]))
     check_exprs(ctx, corpus, "corpus")
+    # corpus entries that are whole sources: the sounded notes (time, channel, key, duration) are given
+    if corpus_src:
+        srcs = [o["src"] for o in corpus_src]
+        got = ctx.impl(["compile_ev\t%s" % vlib.enc_text(x) for x in srcs], stall=15)
+        glex = ctx.impl(["compile_lex\t%s" % vlib.enc_text(x) for x in srcs], stall=15)
+        mod = ctx.model(["compile_core\t%s" % vlib.enc_text(x) for x in srcs])
+        for o, g, gl, m in zip(corpus_src, got, glex, mod):
+            ctx.count("corpus", o["src"])
+            if m.startswith("UNSUPPORTED") or m.startswith("OUTOFFUEL"):
+                ctx.unsupported += 1
+            elif gl != m:
+                ctx.disagree("compile (lex/exec/generate) of a corpus program", o["src"], gl[:300], m[:300])
+            f = g.split("\t")
+            notes = [[int(x) for x in ev.split(":")[1:5]] for trk in f[2].split("/") for ev in trk.split(";") if ev.startswith("N:")] \
+                if len(f) >= 3 and f[2] != "-" else []
+            if notes != o["notes"]:
+                ctx.oracle_fail("the notes of the corpus program %r are not the documented ones (%s)" % (o["src"], o.get("why", "")),
+                                o["src"], str(notes), str(o["notes"]), input_text=o["src"])
     exprs = [gen_expr(rng) for _ in range(n)]
     keep = check_exprs(ctx, exprs, "grammar")
     # additivity on the implementation: len(A ^ B) = len(A) + len(B), B a positive numeral, %t or empty
@@ -127,7 +150,7 @@ def run(ctx):
                             input_text="%s^%s|%d|%d" % (a, b, tb, d))
     # the same expressions where they are WRITTEN: after a rest and a note in a program (the reader that cuts the length
     # text out of the source runs before calc_length); a marker note shows where the time pointer stands afterwards
-    progs = []
+    progs, lforms = [], []
     for (e, txt, want) in keep[: (500 if ctx.tier == "quick" else 20000)]:
         s_, tb, d = vlib.dec_text(txt), e[2], e[3]
         # (numerals of 7+ digits and results beyond 2^20 are left to the calc_length-level checks: the note's gate is f32 arithmetic)
@@ -136,9 +159,27 @@ def run(ctx):
         head = "TimeBase(%d) l%%%d " % (tb, d)
         if s_[0] in "-+":
             continue        # after a note letter a leading - or + is an accidental, after r a leading - is the backward rest
-        form = rng.choice(["r", "c"])
+        form = rng.choice(["r", "c", "l"])
+        if form == "l":
+            # `l` + expression, then a note: omitted parts mean a quarter note (the time base), not the running default;
+            # a length that starts with a dot ("l." "l..^8") is the dotted quarter (the dot is no reservation syntax)
+            lforms.append((e, s_, "TimeBase(%d) l%%%d l%s c CH(16)n100,%%1" % (tb, d, s_)))
+            continue
         body = {"r": "r%s" % s_, "c": "c%s" % s_}[form]
         progs.append((head + body + " CH(16)n100,%1", int(want), s_))
+        if "^" in s_:
+            # a tied part may stand on a LATER line: line breaks, blank lines, indentation and // comment lines before its '^'
+            # continue the length (theorem C04_token_line_break); same tick count as on one line
+            k = rng.choice([i for i, c in enumerate(s_) if c == "^"])
+            gap = rng.choice(["\n", "\n\n", "\r\n\r\n", "\n// tie goes on\n", "\n  ", "\n\t\n ", "\n/* x */\n"])
+            progs.append((head + form + s_[:k] + gap + s_[k:] + " CH(16)n100,%1", int(want), s_[:k] + gap + s_[k:]))
+    lspec = ctx.model(["len_spec\t%s\t%s\t%d\t%d" % (e[0], e[1], e[2], e[2]) for e, _s, _src in lforms])
+    for (e, s_, src), r in zip(lforms, lspec):
+        if "\t" not in r:
+            continue
+        w = int(r.split("\t")[1])
+        if 0 <= w < 2 ** 20:
+            progs.append((src, w, s_))
     got = ctx.impl(["compile_ev\t%s" % vlib.enc_text(p[0]) for p in progs], stall=15)
     mod = ctx.model(["compile_core\t%s" % vlib.enc_text(p[0]) for p in progs])
     glex = ctx.impl(["compile_lex\t%s" % vlib.enc_text(p[0]) for p in progs], stall=15)
